@@ -11,7 +11,7 @@ use chumsky::error::EmptyErr;
 
 pub const ID: &str = "C01";
 
-pub const RULE: &str = "cases = (grammar, input): (a) bounded-exhaustive tier: every tree of <= 3 combinator nodes over 5 primitives, plus every single item source and every PAIR of item sources joined by then and consumed by one collect / count (or_not() / into_iter() over every tree of <= 1 combinator node: the IterParser implementations of or_not and then), x every string over {a,b,c} up to length L (L=4 quick, 6 thorough); (b) random tier: grammars decoded from proptest choice tapes (C01 class: all primitives incl. select/custom/end/empty, then/ignore_then/then_ignore/group tuple+array, or/choice tuple+Vec+array, or_not, not, and_is, rewind, delimited_by, padded_by, map/to/ignored/unwrapped, filter/try_map/try_map_with; depth <= 5, <= 25 nodes, 2..4 symbols of {a b c , ( ) é → 𝄞}) (a fifth of the grammars also contain or_not / then / into_iter used as item sources under one collect / count) with 60% derived sentences (+0..2 edits) and 40% random strings, on &str and &[char]. Each case runs parse+check with Rich and EmptyErr, the plain and the observed (every node wrapped in map_with(span)) build, and g.then(rest). NON-TRIVIAL = the reference abandoned or rewound at least one attempt (alternative, optional, lookahead, and_is) after it had consumed input, or a filter/try_map rejected; distinct = distinct (sub-check, grammar, input).";
+pub const RULE: &str = "cases = (grammar, input): (a) bounded-exhaustive tier: every tree of <= 3 combinator nodes over 5 primitives, plus every single item source and every PAIR of item sources joined by then and consumed by one collect / count (or_not() / into_iter() over every tree of <= 1 combinator node: the IterParser implementations of or_not and then), x every string over {a,b,c} up to length L (L=4 quick, 6 thorough); (b) random tier: grammars decoded from proptest choice tapes (C01 class: all primitives incl. select/custom/end/empty, then/ignore_then/then_ignore/group tuple+array, or/choice tuple+Vec+array, or_not, not, and_is, rewind, delimited_by, padded_by, map/to/ignored/unwrapped, filter/try_map/try_map_with; depth <= 5, <= 25 nodes, 2..4 symbols of {a b c , ( ) é → 𝄞}) (a fifth of the grammars also contain or_not / then / into_iter used as item sources under one collect / count) with 60% derived sentences (+0..2 edits) and 40% random strings, on &str and &[char]. Each case runs parse+check with Rich and EmptyErr, the plain and the observed (every node wrapped in map_with(span)) build, and g.then(rest). Statically typed families on every string over {a b c d e e-acute u-umlaut arrow} up to length 3 / 4: every Seq / OrderedSeq representation of a token set or sequence (token, &token, slice, array, &array, Vec, LinkedList, HashSet, BTreeSet, Range, RangeInclusive, RangeFrom, &str, String) against the membership predicate with the range bounds and their neighbours as tokens; custom parsers written with each InputRef method (next, next_maybe, next_ref, peek, peek_ref, skip, save / rewind, slice_since / slice_from, span_since / span_from) against their meaning; one-element choice / group tuples and the empty choice. One random case in twelve is also run on every other input representation (C10's comparison against the slice baseline). NON-TRIVIAL = the reference abandoned or rewound at least one attempt (alternative, optional, lookahead, and_is) after it had consumed input, or a filter/try_map rejected; distinct = distinct (sub-check, grammar, input).";
 
 pub const ASSUMPTIONS: &[&str] = &[
     "the reference PEG evaluator (harness/src/reference.rs) is the oracle; it was written from the PEG definitions, not from chumsky's code",
@@ -19,7 +19,26 @@ pub const ASSUMPTIONS: &[&str] = &[
     "children of every node are reached through Boxed (dyn Parser); the statically typed catalogue (C01 sub-check 'static') covers non-boxed monomorphisations for ~40 templates only",
 ];
 
+/// the same case on every other input representation (C10's comparison against the slice baseline, which the check above
+/// has just tied to the PEG reading): Stream (plain / boxed), arrays, mapped token-span inputs, IterInput, IoInput,
+/// with_context, map_span
+fn kinds_case(g: &G, toks: &[char], seed: u64, l: &mut Local) -> CaseRes {
+    super::c10::check_inner("rand", g, toks, seed, l).map_err(|(mut c, f)| {
+        c.prop = ID.into();
+        c.sub = "kinds".into();
+        c.extra = serde_json::json!({ "gap_seed": seed });
+        (c, Fail::new(f.sig.replace("C10/", "C01/input-kind/"), f.msg))
+    })
+}
+
 pub fn check_case(case: &Case, l: &mut Local) -> Result<(), Fail> {
+    if case.sub == "kinds" {
+        let seed = case.extra.get("gap_seed").and_then(|p| p.as_u64()).unwrap_or(1);
+        return kinds_case(&case.g, &case.toks(), seed, l).map_err(|(_, f)| f);
+    }
+    if case.sub == "static" {
+        return static_case(&case.input, l).map_err(|(_, f)| f);
+    }
     check_inner(&case.sub, &case.g, &case.toks(), l).map_err(|(_, f)| f)
 }
 
@@ -62,6 +81,191 @@ fn small_item_sources() -> Vec<G> {
     out
 }
 
+
+// ---------------------------------------------------------------------------------------------
+// statically typed families for what the grammar AST does not vary:
+//  (a) every `Seq` / `OrderedSeq` representation a token set / sequence can be given in (single token, &token, slice,
+//      array, &array, Vec, LinkedList, HashSet, BTreeSet, Range, RangeInclusive, RangeFrom, &str, String) against the
+//      obvious membership predicate, with the range bounds and their neighbours as tokens;
+//  (b) `custom` parsers written with each `InputRef` method a user parser can consume or look with (next, next_maybe,
+//      next_ref, peek, peek_ref, skip, save / rewind, slice_since / slice_from, span_since / span_from), against
+//      the equal combinator;  (c) one-element `choice` / `group` tuples, the empty choice.
+
+fn static_case(s: &str, l: &mut Local) -> CaseRes {
+    use chumsky::prelude::*;
+    type E<'a> = extra::Err<Rich<'a, char>>;
+    let toks: Vec<char> = s.chars().collect();
+    let case = |name: &str| {
+        let mut c = Case::new(ID, "static", &G::Empty, &toks);
+        c.extra = serde_json::json!({ "parser": name });
+        c
+    };
+    // result of a parser as (output rendered, remainder) or None; parse and check must agree on acceptance
+    macro_rules! res {
+        ($name:expr, $p:expr) => {{
+            let name: &str = $name;
+            let p = $p.then(any::<&str, E>().repeated().to_slice());
+            let r = crate::run::quietly(|| (p.parse(s).into_output().map(|(o, r)| (format!("{:?}", o), r.len())), p.check(s).has_output()));
+            l.evals += 2;
+            match r {
+                Err(_) => return Err((case(name), Fail::new("C01/panic", format!("{} panicked on {:?}", name, s)))),
+                Ok((o, c)) => {
+                    if o.is_some() != c {
+                        return Err((case(name), Fail::new("C01/accept-check", format!("{} on {:?}: parse accepts = {}, check accepts = {}", name, s, o.is_some(), c))));
+                    }
+                    o
+                }
+            }
+        }};
+    }
+    macro_rules! same {
+        ($name:expr, $p:expr, $want:expr) => {{
+            let got = res!($name, $p);
+            let want: Option<(String, usize)> = $want;
+            if got != want {
+                return Err((case($name), Fail::new("C01/static", format!("{} on {:?}: (output, unconsumed bytes) = {:?} but the PEG reading gives {:?}", $name, s, got, want))));
+            }
+            l.bump("static_family_runs");
+        }};
+    }
+    let first = toks.first().copied();
+    let rest_after_first = first.map(|c| s.len() - c.len_utf8()).unwrap_or(0);
+    // ---- (a) token sets: one_of / none_of on the first token
+    macro_rules! set {
+        ($name:expr, $mk:expr, $member:expr) => {{
+            let member: &dyn Fn(char) -> bool = &$member;
+            same!(concat!("one_of(", $name, ")"), one_of::<_, &str, E>($mk), first.filter(|c| member(*c)).map(|c| (format!("{:?}", c), rest_after_first)));
+            same!(concat!("none_of(", $name, ")"), none_of::<_, &str, E>($mk), first.filter(|c| !member(*c)).map(|c| (format!("{:?}", c), rest_after_first)));
+        }};
+    }
+    let bcd = |c: char| ('b'..='d').contains(&c);
+    static B: char = 'b';
+    static BCD: [char; 3] = ['b', 'c', 'd'];
+    set!("'b'", 'b', |c| c == 'b');
+    set!("&'b'", &B, |c| c == 'b');
+    set!("&['b','c','d'][..]", &BCD[..], bcd);
+    set!("['b','c','d']", ['b', 'c', 'd'], bcd);
+    set!("&['b','c','d']", &BCD, bcd);
+    set!("vec!['b','c','d']", vec!['b', 'c', 'd'], bcd);
+    set!("LinkedList", ['b', 'c', 'd'].into_iter().collect::<std::collections::LinkedList<char>>(), bcd);
+    set!("HashSet", ['b', 'c', 'd'].into_iter().collect::<std::collections::HashSet<char>>(), bcd);
+    set!("BTreeSet", ['b', 'c', 'd'].into_iter().collect::<std::collections::BTreeSet<char>>(), bcd);
+    set!("'b'..'e'", 'b'..'e', bcd);
+    set!("'b'..='d'", 'b'..='d', bcd);
+    // an unbounded range as a token set: membership only, with an error type that does not enumerate the expected
+    // tokens (with Rich the failure path walks the whole range: C20's known finding KF-d)
+    {
+        type EC<'a> = extra::Err<chumsky::error::Cheap>;
+        let p1 = one_of::<_, &str, EC>('b'..).then(any::<&str, EC>().repeated().to_slice());
+        let p2 = none_of::<_, &str, EC>('b'..).then(any::<&str, EC>().repeated().to_slice());
+        let r = crate::run::quietly(|| (p1.parse(s).into_output().map(|(c, r)| (c, r.len())), p2.parse(s).into_output().map(|(c, r)| (c, r.len())), p1.check(s).has_output(), p2.check(s).has_output()));
+        l.evals += 4;
+        let w1 = first.filter(|c| *c >= 'b').map(|c| (c, rest_after_first));
+        let w2 = first.filter(|c| *c < 'b').map(|c| (c, rest_after_first));
+        match r {
+            Ok((a, b, ca, cb)) if a == w1 && b == w2 && ca == w1.is_some() && cb == w2.is_some() => l.bump("static_family_runs"),
+            other => return Err((case("one_of('b'..) / none_of('b'..)"), Fail::new("C01/static", format!("on {:?}: one_of / none_of over the unbounded range 'b'.. give {:?}, the PEG reading gives {:?} / {:?}", s, other.ok(), w1, w2)))),
+        }
+    }
+    set!("'é'..'→'", 'é'..'→', |c| c >= 'é' && c < '→');
+    set!("\"bcd\"", "bcd", bcd);
+    set!("String", String::from("bcd"), bcd);
+    set!("\"éü→\"", "éü→", |c| "éü→".contains(c));
+    // ---- (a') ordered sequences: just(seq)
+    macro_rules! seq {
+        ($name:expr, $mk:expr, $lit:expr) => {{
+            let lit: &str = $lit;
+            same!(concat!("just(", $name, ").to_slice()"), just::<_, &str, E>($mk).to_slice(), s.starts_with(lit).then(|| (format!("{:?}", lit), s.len() - lit.len())));
+        }};
+    }
+    seq!("'b'", 'b', "b");
+    seq!("&'b'", &B, "b");
+    seq!("&['b','c','d'][..]", &BCD[..], "bcd");
+    seq!("['b','c','d']", ['b', 'c', 'd'], "bcd");
+    seq!("&['b','c','d']", &BCD, "bcd");
+    seq!("vec!['b','c','d']", vec!['b', 'c', 'd'], "bcd");
+    seq!("'b'..'e'", 'b'..'e', "bcd");
+    seq!("'b'..='d'", 'b'..='d', "bcd");
+    seq!("\"bcd\"", "bcd", "bcd");
+    seq!("String", String::from("bcd"), "bcd");
+    seq!("\"bé\"", "bé", "bé");
+    // ---- (b) custom parsers over the InputRef API, each against its meaning
+    let second = toks.get(1).copied();
+    same!(
+        "custom: next_maybe() twice, rewind to after the first if the second is not 'c'",
+        custom::<_, &str, String, E>(|inp| {
+            let before = inp.cursor();
+            let Some(a) = inp.next_maybe() else { return Err(Rich::custom(inp.span_since(&before), "eof")) };
+            let mid = inp.save();
+            let b = inp.next_maybe();
+            if b.as_deref() != Some(&'c') {
+                inp.rewind(mid);
+            }
+            Ok(format!("{}{}", *a, inp.slice_since(&before..)))
+        }),
+        first.map(|a| {
+            let n = if second == Some('c') { a.len_utf8() + 1 } else { a.len_utf8() };
+            (format!("{:?}", format!("{}{}", a, &s[..n])), s.len() - n)
+        })
+    );
+    same!(
+        "custom: peek() decides, next() consumes, span_since",
+        custom::<_, &str, (char, usize, usize), E>(|inp| {
+            let before = inp.cursor();
+            match inp.peek() {
+                Some('a') | Some('é') => {
+                    let c = inp.next().unwrap();
+                    let sp = inp.span_since(&before);
+                    Ok((c, sp.start, sp.end))
+                }
+                _ => Err(Rich::custom(inp.span_since(&before), "no")),
+            }
+        }),
+        first.filter(|c| *c == 'a' || *c == 'é').map(|c| (format!("{:?}", (c, 0usize, c.len_utf8())), rest_after_first))
+    );
+    same!(
+        "custom: peek() + skip() while b..=d, then slice_from / span_from of the rest",
+        custom::<_, &str, (String, usize, usize), E>(|inp| {
+            while matches!(inp.peek(), Some('b'..='d')) {
+                inp.skip();
+            }
+            let here = inp.cursor();
+            let rest: &str = inp.slice_from(&here..);
+            let sp = inp.span_from(&here..);
+            Ok((rest.to_string(), sp.start, sp.end))
+        }),
+        {
+            let n: usize = toks.iter().take_while(|c| ('b'..='d').contains(*c)).count();
+            Some((format!("{:?}", (s[n..].to_string(), n, s.len())), s.len() - n))
+        }
+    );
+    // by-reference API on a slice input
+    {
+        type ES<'a> = extra::Err<Rich<'a, char>>;
+        let sl: &[char] = &toks;
+        let p = custom::<_, &[char], (Option<char>, Option<char>, usize), ES>(|inp| {
+            let before = inp.cursor();
+            let pk = inp.peek_ref().copied();
+            let nx = inp.next_ref().copied();
+            let n: &[char] = inp.slice_since(&before..);
+            Ok((pk, nx, n.len()))
+        })
+        .then(any::<&[char], ES>().repeated().to_slice());
+        let r = crate::run::quietly(|| p.parse(sl).into_output().map(|(o, r)| (o, r.len())));
+        l.evals += 1;
+        let want = Some(((first, first, first.is_some() as usize), toks.len() - first.is_some() as usize));
+        match r {
+            Ok(got) if got == want => l.bump("static_family_runs"),
+            other => return Err((case("custom over &[char]: peek_ref, next_ref, slice_since"), Fail::new("C01/static", format!("on {:?}: got {:?}, the PEG reading gives {:?}", toks, other.ok(), want)))),
+        }
+    }
+    // ---- (c) one-element tuples, the empty choice
+    same!("choice((just('a'),))", choice((just::<_, &str, E>('a'),)), (first == Some('a')).then(|| ("'a'".to_string(), s.len() - 1)));
+    same!("group((just('a'),))", group((just::<_, &str, E>('a'),)), (first == Some('a')).then(|| ("('a',)".to_string(), s.len() - 1)));
+    same!("choice(empty Vec) never matches", choice(Vec::<chumsky::primitive::Just<char, &str, E>>::new()), None);
+    Ok(())
+}
+
 pub fn decode(tape: &[u32]) -> (G, Vec<char>, &'static str) {
     let mut t = Tape::new(tape);
     let sub = if t.chance(1, 4) { "slice" } else { "str" };
@@ -100,13 +304,28 @@ pub fn run(tier: Tier, seed: u64) -> i32 {
         }
         Ok(())
     });
+    // statically typed families (Seq representations, custom parsers over the InputRef API, one-element tuples): every short string
+    let sstrings: Vec<String> = all_strings(&['a', 'b', 'c', 'd', 'e', 'é', 'ü', '→'], ctx.pick(3, 4)).into_iter().map(|v| v.into_iter().collect()).collect();
+    let schunks: Vec<&[String]> = sstrings.chunks(32).collect();
+    ctx.par_jobs(&schunks, |ch, l| {
+        for s in ch.iter() {
+            static_case(s, l)?;
+        }
+        Ok(())
+    });
     ctx.exhaustive.store(false, std::sync::atomic::Ordering::Relaxed);
     // random tier
     let n = ctx.pick(300_000, 4_000_000);
     ctx.par_random(n, 160, 1, |tape, l| {
         let (g, input, sub) = decode(tape);
         debug_assert!(wf(&g), "generator produced an ill-formed grammar: {}", render(&g));
-        check_inner(sub, &g, &input, l)
+        check_inner(sub, &g, &input, l)?;
+        // one case in twelve: every other input representation too
+        if tape.first().copied().unwrap_or(0) % 12 == 0 && !g.any_node(&|n| matches!(n, G::IterThen(..))) {
+            l.bump("cases_on_every_input_kind");
+            kinds_case(&g, &input, 1 + (tape.len() as u64 % 5), l)?;
+        }
+        Ok(())
     });
     ctx.finish(&check_case, RULE, ASSUMPTIONS, &|l| {
         if l.counters.get("with_partial_match_backtrack").copied().unwrap_or(0) == 0 {
